@@ -582,7 +582,6 @@ Proof.
       - simpl in Hck. apply String.eqb_eq in Hck. subst c0.
         apply dec_struct_roundtrip; auto. }
     destruct f0; try discriminate; try (exfalso; destruct f0_1; discriminate).
-    + (* Any: structs do not conform *) simpl in Hc. discriminate.
     + specialize (Hst (FUnion cs) eq_refl I Hc). simpl in *.
       destruct (lookup S c) as [si|] eqn:Hl.
       * exact Hst.
